@@ -46,13 +46,13 @@ def WellFormed (v : Val) : Prop := Typing.checkVal false v (typeOf v) = true ∧
 body (its MAP bodies keep the element type) -/
 def StrictWF (v : Val) : Prop := Typing.checkVal true v (typeOf v) = true ∧ Typing.litOk v = true
 
-/-- **shape digests**: for each of the 99 instruction forms, the helpers (`execute_dip`, `execute_shift`, `dispatch_types`
+/-- **shape digests**: for each of the 100 instruction forms, the helpers (`execute_dip`, `execute_shift`, `dispatch_types`
 …) and the `MichelsonStack` / `PairType` / `from_value` methods they call, the normalised statement list in the source
 is the one the mirror `Impl` was written from (translator/c01.py, `SHAPES`) -/
 theorem source_bodies_recognised : Generated.C01.bodyRecognised.all (·.2) = true := by decide
 
-/-- the digest list covers all 99 instruction forms -/
-theorem source_bodies_cover_all_forms : Generated.C01.modelledForms = 99 ∧ 99 ≤ Generated.C01.bodyRecognised.length := by
+/-- the digest list covers all 100 instruction forms -/
+theorem source_bodies_cover_all_forms : Generated.C01.modelledForms = 100 ∧ 100 ≤ Generated.C01.bodyRecognised.length := by
   decide +kernel
 
 /-- the `dispatch_types` tables read from arithmetic.py are the reference tables -/
@@ -223,7 +223,7 @@ end
 the PUSHed lambda literals, in LAMBDA bodies — leaves an element of the type it was given.  For such programs, run on
 strictly well-typed values (`StrictWF`: the lambdas on the input stack have strictly typed bodies too), the guard of
 `welltyped_run_eq_reference` never fires, so C01's statement holds with static hypotheses only.  The invariant "every
-lambda on the stack has a strictly typed body" is carried through all 99 instruction forms by the same preservation /
+lambda on the stack has a strictly typed body" is carried through all 100 instruction forms by the same preservation /
 progress development as the non-strict one, instantiated at the mode `Mode.strictGuarded`. -/
 
 /-- strict typing refines typing: same result -/
@@ -442,6 +442,38 @@ example : Impl.run env0 20 (.seq [.PUSH (.map .string (.option .bool)) (.map .st
   run_ok env0 20 _ [] _ (by rfl)
 -- a lambda or an address has a packed form too, but not in the model: not a packable type here
 example : Typing.typeInstr false .PACK [.address] = none := by rfl
+
+-- extension 3, phase 1: UNPACK reads the optimized form PACK writes, and the other spellings the protocol accepts — a comb as
+-- `Pair x y z` (`09 07 <length> … <no annotations>`) or as a sequence —, and answers None on everything else: trailing bytes, a
+-- missing `05`, a non-minimal integer (`00 80 00`), an annotated constructor (`04 0b … "%a"`), an unsorted set, a negative `nat`,
+-- `Pair 1 2 3` where the right component is a list
+def tIIN : Ty := .pair .int (.pair .int .nat)
+example : Spec.eval true env0 20 (.seq [.PUSH tIIN (.pair (.num .int 1) (.pair (.num .int (-2)) (.num .nat 3))), .PACK, .UNPACK tIIN]) []
+    = .ok [.some (.pair (.num .int 1) (.pair (.num .int (-2)) (.num .nat 3)))] := by rfl
+example : Spec.eval true env0 20 (.seq [.PUSH .bytes (.bytes [5, 9, 7, 0, 0, 0, 6, 0, 1, 0, 66, 0, 3, 0, 0, 0, 0]), .UNPACK tIIN,
+      .PUSH .bytes (.bytes [5, 2, 0, 0, 0, 6, 0, 1, 0, 66, 0, 3]), .UNPACK tIIN]) []
+    = .ok [.some (.pair (.num .int 1) (.pair (.num .int (-2)) (.num .nat 3))), .some (.pair (.num .int 1) (.pair (.num .int (-2)) (.num .nat 3)))] := by rfl
+example : Spec.eval true env0 20 (.seq [.PUSH .bytes (.bytes [5, 0, 1, 0]), .UNPACK .int, .PUSH .bytes (.bytes [0, 1]), .UNPACK .int,
+      .PUSH .bytes (.bytes [5, 0, 128, 0]), .UNPACK .int, .PUSH .bytes (.bytes [5, 4, 11, 0, 0, 0, 2, 37, 97]), .UNPACK .unit]) []
+    = .ok [.none .unit, .none .int, .none .int, .none .int] := by rfl
+example : Spec.eval true env0 20 (.seq [.PUSH .bytes (.bytes [5, 2, 0, 0, 0, 4, 0, 2, 0, 1]), .UNPACK (.set .int),
+      .PUSH .bytes (.bytes [5, 0, 65]), .UNPACK .nat,
+      .PUSH .bytes (.bytes [5, 9, 7, 0, 0, 0, 6, 0, 1, 0, 2, 0, 3, 0, 0, 0, 0]), .UNPACK (.pair .int (.list .int))]) []
+    = .ok [.none (.pair .int (.list .int)), .none .nat, .none (.set .int)] := by rfl
+-- the machine answers the same, on these and on every other byte string (`exec_refines_spec`)
+example : Impl.run env0 20 (.seq [.PUSH .bytes (.bytes [5, 2, 0, 0, 0, 6, 0, 1, 0, 66, 0, 3]), .UNPACK tIIN]) []
+    = .ok [.some (.pair (.num .int 1) (.pair (.num .int (-2)) (.num .nat 3)))] :=
+  run_ok env0 20 _ [] _ (by rfl)
+-- a timestamp in its readable form is read by the environment's reader (a parameter: for EVERY such reader)
+example (rt : List Nat → Option Int) : Impl.run { env0 with readTimestamp := rt } 20 (.seq [.PUSH .bytes (.bytes [5, 1, 0, 0, 0, 1, 48]), .UNPACK .timestamp]) []
+    = .ok [match rt [48] with | some v => .some (.num .timestamp v) | none => .none .timestamp] :=
+  run_ok _ 20 _ [] _ (by
+    simp only [Spec.eval, Spec.evalSeq, Spec.step, Spec.stepMore, Spec.stepExt, Spec.unV, Spec.unpackV, Res.bind, Typing.unpackable]
+    cases h : rt [48] <;> simp [show Spec.Micheline.decode Spec.knownPrim [1, 0, 0, 0, 1, 48] = some (.str [48]) from by rfl, Spec.readVal, h])
+-- UNPACK at a type with composite set elements, at `address`, at a lambda type: not in the model (ill-typed there)
+example : Typing.typeInstr false (.UNPACK (.set (.pair .int .int))) [.bytes] = none := by rfl
+example : Typing.typeInstr false (.UNPACK .address) [.bytes] = none := by rfl
+example : Typing.typeInstr false (.UNPACK (.map .string (.list (.option .mutez)))) [.bytes] = some (.ok [.option (.map .string (.list (.option .mutez)))]) := by rfl
 
 -- non-vacuity of `welltyped_run_eq_reference` / `progress`: a well-typed program with a loop, a lambda call and a sorted
 -- set literal, run on a well-typed input stack; the hypotheses hold and the run is inside the guard
